@@ -683,6 +683,18 @@ def indent_from_gap(gap: str) -> int:
     return len(gap.rsplit("\n", 1)[-1])
 
 
+def own_line_comments(items: list[Any]) -> list[Any]:
+    """Trailing comments behind the first one do not share the code's line."""
+    from nix_manipulator.expressions.comment import Comment
+
+    return [
+        item.model_copy(update={"inline": False})
+        if isinstance(item, Comment) and item.inline
+        else item
+        for item in items
+    ]
+
+
 def apply_trailing_trivia(rebuilt: str, after: list[Any], *, indent: int) -> str:
     """
     Append trailing trivia to a preformatted string.
@@ -694,19 +706,14 @@ def apply_trailing_trivia(rebuilt: str, after: list[Any], *, indent: int) -> str
 
     if not after:
         return rebuilt
+    own_lines = own_line_comments
+
     if isinstance(after[0], Comment) and after[0].inline:
         inline_comment = after[0].rebuild(indent=0)
-        # Only the first comment can share the line; the others get their own.
-        own_lines = [
-            item.model_copy(update={"inline": False})
-            if isinstance(item, Comment) and item.inline
-            else item
-            for item in after[1:]
-        ]
-        trailing = format_trivia(own_lines, indent=indent)
+        trailing = format_trivia(own_lines(after[1:]), indent=indent)
         trailing = trim_trailing_layout_newline(after, trailing)
         return f"{rebuilt} {inline_comment}" + (f"\n{trailing}" if trailing else "")
 
-    after_str = format_trivia(after, indent=indent)
+    after_str = format_trivia(own_lines(after), indent=indent)
     after_str = trim_trailing_layout_newline(after, after_str)
     return rebuilt + (f"\n{after_str}" if after_str else "")
